@@ -197,7 +197,8 @@ pub fn gen_set(rng: &mut Rng, profile: usize, max_size: u64) -> BTreeSet<String>
             while (set.len() as u64) < size && tries < 40 {
                 tries += 1;
                 let u = rng.pick(&units).clone();
-                let k = rng.range(1, 4) as usize;
+                // mostly short runs; now and then a long one (a test case of 16+ graphemes made of repetitions)
+                let k = if rng.chance(1, 5) { rng.range(6, 12) as usize } else { rng.range(1, 4) as usize };
                 let tail = if rng.chance(1, 3) { word(rng, &alpha, 0, 1) } else { String::new() };
                 set.insert(format!("{}{}{}", rng.pick(&heads), u.repeat(k), tail));
             }
